@@ -1,4 +1,5 @@
 import Blue.Driver.Util
+import Blue.Driver.C17
 import Blue.Driver.C18
 import Blue.Driver.C12
 import Blue.Driver.C19
@@ -36,6 +37,7 @@ def dispatch (toks : List String) : String :=
   | "doc" :: rest => Blue.Driver.C19.handleDoc rest
   | "log" :: rest => Blue.Driver.C12.handle rest
   | "lru" :: _ | "wl" :: _ | "wcq" :: _ | "wake" :: _ => Blue.Driver.C18.handle toks
+  | "skip" :: _ | "list" :: _ => Blue.Driver.C17.handle toks
   | _ => "bad-op"
 
 partial def loop (h : IO.FS.Stream) (out : IO.FS.Stream) : IO Unit := do
